@@ -31,7 +31,7 @@ ASSUMPTIONS = [
     'vacuous (not counted as pass) when the regularised input is singular, '
     'kappa>1e8 or the rounding slack exceeds 0.05']
 EXPECTED_PROBES = ['root_checked_nontrivial', 'root_retry_gt1',
-                   'padded_root_checked']
+                   'padded_root_checked', 'root64_called']
 
 
 def generate(seed, idx, tier):
@@ -72,7 +72,7 @@ def generate(seed, idx, tier):
           f"{'_x64' if x64 else '_f32'}", 'x64': x64, 'mode': mode, 'D': D,
           'mesh': mesh, 'config': cfg, 'tree': tree, 'lr': ds_gen.gen_lr(rng),
           'param_seed': rng.randrange(1000), 'ops': ops,
-          'oracles': ['roots', 'gate']}
+          'oracles': ['roots', 'gate', 'roots64']}
 
 
 def run(plan):
